@@ -55,7 +55,9 @@ def configs(ctx):
     grid = T.all_configs()
     cfgs = []
     for rep in range(ctx.scale(1, 6)):
-        for g in grid:
+        for i, g in enumerate(grid):
+            if not ctx.thorough and (i + ctx.seed) % 2:
+                continue                      # quick: half of the grid, rotated by the seed
             c = dict(g)
             c["steps"] = 10 if g["alg"] == "MOEAD" else 20
             c["evaluator"] = rng.choice(["map", "map", "copy", "thread"])
@@ -207,6 +209,14 @@ def run(ctx):
     for (a, b) in ranges:
         ctx.mark("intrange|%d|%d" % (a, b))
 
+    # Real.rand (the initial population) stays inside its bounds, very wide finite bounds included
+    ndraws, rr_fails = T.real_rand_oracle(rng, ctx.scale(300, 3000))
+    ctx.count(ndraws)
+    for key, what, rp in rr_fails[:6]:
+        ctx.violation(key, what, rp)
+    for (a, b) in T.REAL_BOUNDS_POOL:
+        ctx.mark("realrand|%r|%r" % (a, b))
+
     # PSO position update and CMA-ES sampler: real method vs model, plus bounds oracle
     pso_lits, pso_fails, pso_stats = T.pso_cases(rng, ctx.scale(600, 6000))
     cma_lits, cma_fails, cma_stats = T.cma_cases(rng, ctx.scale(300, 3000))
@@ -255,10 +265,10 @@ def run(ctx):
         "input_distribution": {k: (dict(v) if isinstance(v, Counter) else v) for k, v in dist.items()},
         "rejected_configurations": rejected[:40],
         "rejected_configurations_count": len(rejected),
-        "finding_candidates": T.wide_rand_probe() + candidates[:10],
-        "finding_candidates_count": len(candidates) + len(T.wide_rand_probe()),
+        "finding_candidates": candidates[:10],
+        "finding_candidates_count": len(candidates),
     })
-    ctx.rule = ("runs: the whole grid algorithm(15) x variable type(10 incl. mixed Binary+Integer, very narrow and very wide Real ranges, power-of-two Integer ranges, a user-defined ScaledReal type; Real only for GDE3/OMOPSO/SMPSO/CMAES) x "
+    ctx.rule = ("runs: the grid (quick: half of it, rotated by the seed; thorough: all of it x6) algorithm(15) x variable type(10 incl. mixed Binary+Integer, very narrow and very wide Real ranges, power-of-two Integer ranges, a user-defined ScaledReal type; Real only for GDE3/OMOPSO/SMPSO/CMAES) x "
                 "{unconstrained, constrained} x {min, max} x {default, explicit operator} (thorough: x6), evaluator/seed/size/scripted-extreme-"
                 "probability from ctx.rng, plus heavy-extreme-draw (p=0.5, 0.9), restart and injected-population specials; every call of the "
                 "user function is logged; non-trivial run = >= 10 calls, distinct by configuration incl. seed. Function cases: registry = "
@@ -269,6 +279,8 @@ def run(ctx):
                         "rejected configurations (DESIGN section 7): size parameters 0, Integer(a,a), Real(lb,lb), Subset(...,0), mixed types without an "
                         "explicit operator, MAXIMIZE with NSGAIII/MOEAD; IBEA on a constrained problem with infeasible members raises "
                         "(recorded under coverage.finding_candidates, not a C07 violation)",
+                        "OMOPSO / SMPSO / CMAES are not run on the very wide Real kind (bounds up to +-DBL_MAX): the velocity arithmetic (range/2, C*r*(best - x)) and "
+                        "the CMA-ES initial mean (max - min) overflow to inf/NaN there, which is outside the theorems' explicit 'candidate is not NaN' hypothesis",
                         "runs with a ProcessPoolEvaluator are not used here (the call log lives in the workers); C01 covers them"]
 
 
@@ -294,6 +306,10 @@ def replay(ctx, data):
         bad = T.integer_decode_replay(rp)
         if bad:
             ctx.violation(key, "replay: Integer(%d, %d) %s" % (rp["min"], rp["max"], bad), rp)
+    elif kind == "real-rand":
+        bad = T.real_rand_replay(rp)
+        if bad:
+            ctx.violation(key, "replay: Real(%s, %s).rand() %s" % (rp["lb"], rp["ub"], bad), rp)
     elif kind == "pso":
         bad = T.pso_replay(rp)
         if bad:
